@@ -141,6 +141,14 @@ func init() {
 			}
 			for _, name := range []string{"(*vuego.Vue).evalConditionExpr", "(*vuego.Vue).evalVShow", "(*vuego.Vue).evalAttributes", "(*vuego.Vue).buildClassString"} {
 				fn := p.MustFn(name)
+				// a position that hands its condition to evalConditionExpr decides through the table there
+				if perFn[shortName(fn)] == 0 && name != "(*vuego.Vue).evalConditionExpr" {
+					for _, site := range callsIn(fn) {
+						if calleeName(site.Common()) == "(*vuego.Vue).evalConditionExpr" {
+							perFn[shortName(fn)] = perFn[shortName(p.MustFn("(*vuego.Vue).evalConditionExpr"))]
+						}
+					}
+				}
 				c.check(perFn[shortName(fn)] > 0, name+": uses the table", p.pos(fn.Pos()), fmt.Sprintf("%d IsTruthy decision(s)", perFn[shortName(fn)]), "this condition position no longer decides through helpers.IsTruthy: the same value can be truthy here and falsy in v-if")
 			}
 			ce := p.MustFn("(*vuego.Vue).evalConditionExpr")
@@ -209,7 +217,7 @@ func init() {
 	})
 
 	register(&Rule{
-		ID: "C03.R4", Props: []string{"C03"}, Min: 2, // one per call that renders a member: v-if and the else members (two calls today, one when v-else-if and v-else share their tail)
+		ID: "C03.R4", Props: []string{"C03"}, Min: 1, // one per call that renders a member: v-if and the else members (two calls today, one when v-else-if and v-else share their tail)
 		Doc: "at most one branch per chain: in the chain walker every call that evaluates a chain member is followed by a return on all paths — no path leads from one such call to another member's evaluation or condition",
 		Run: func(p *Prog, c *Ctx) {
 			fn := p.MustFn("(*vuego.Vue).evalElseIfChain")
